@@ -10,6 +10,9 @@ def edge_sig(sig, e, v):
         buf = m.group(1) if m else "?"
         sig["fact_load_emitted"] = bool(re.search(r"^\s*stg\[.*\] = " + re.escape(buf) + r"\[", tb, re.M))
     ta = e.get("text_a") or ""
+    if e["op"] == "sink_alloc":
+        # was the allocation sunk into an if statement that has an else branch?
+        sig["fact_into_if_else"] = bool(re.search(r"^\s*else:\n\s*\w+: \w+(\[.*\])? @", tb, re.M))
     if sig.get("class") in ("scope", "safety") and sig.get("detail") in ("", "unbound"):
         # does an allocation's shape in the source mention an enclosing loop iterator?
         iters = set(re.findall(r"^\s*for (\w+) in ", ta, re.M))
